@@ -273,6 +273,14 @@ type callInfo struct {
 	Args  bool
 }
 
+func hbStrings(v []HB) []string {
+	out := make([]string, len(v))
+	for i := range v {
+		out[i] = v[i].String()
+	}
+	return out
+}
+
 func genGlueCall(r *Rng, files []*srcFile) (stack.Call, callInfo) {
 	f := files[r.Intn(len(files))]
 	if r.Chance(1, 2) {
@@ -482,6 +490,20 @@ func runC19Bw(res *Result, pool *DrvPool, r *Rng, base string) {
 		}
 		before := mGs(gs)
 		op := mkGlueOp(res, gs)
+		// every call augmented on its own (a snapshot of one goroutine with that one frame): the typed
+		// rendering of a frame is a function of the frame and its source file, not of the other files
+		// the same augmentation loaded before it
+		alone := make([][][]HB, len(before))
+		for gi := range before {
+			alone[gi] = make([][]HB, len(before[gi].Sig.Stack.Calls))
+			for ci := range before[gi].Sig.Stack.Calls {
+				mc := before[gi].Sig.Stack.Calls[ci]
+				one := &stack.Snapshot{Goroutines: []*stack.Goroutine{{Signature: stack.Signature{Stack: stack.Stack{Calls: []stack.Call{sCall(&mc)}}}, ID: 1}}}
+				if _, p1 := safeAugment(one); p1 == nil {
+					alone[gi][ci] = mGs(one.Goroutines)[0].Sig.Stack.Calls[0].Args.Processed
+				}
+			}
+		}
 		snap := &stack.Snapshot{Goroutines: gs}
 		aerr, pan := safeAugment(snap)
 		after := mGs(snap.Goroutines)
@@ -536,6 +558,9 @@ func runC19Bw(res *Result, pool *DrvPool, r *Rng, base string) {
 				} else {
 					if len(pa) < len(pb) || !sameHBs(pb, pa[:len(pb)]) {
 						res.Violation(Finding{Stream: "w", What: fmt.Sprintf("previous Processed entries were not kept (goroutine %d call %d)", gi, ci), Op: opDesc, Expected: pb, Got: pa})
+					}
+					if alone[gi][ci] != nil && !sameHBs(alone[gi][ci], pa) {
+						res.Violation(Finding{Stream: "w", What: fmt.Sprintf("the typed rendering of a frame depends on the other frames of the snapshot: goroutine %d call %d (%s:%d) is rendered %v when the whole snapshot is augmented and %v when a snapshot of that one frame is", gi, ci, filepath.Base(inf.File.Path), before[gi].Sig.Stack.Calls[ci].Line, hbStrings(pa), hbStrings(alone[gi][ci])), Op: opDesc, Expected: alone[gi][ci], Got: pa})
 					}
 					if !same {
 						augmented++
